@@ -28,7 +28,9 @@ MANIFEST = {
              "load, more events than the 41 buffered slots) are recorded at linearisation points. TLC evaluates "
              "the Props operators on every observed trace: prefix of backlog ++ later events, complete at "
              "quiescence for every subscriber that reads, nothing after Cancel/Stop, closed after Cancel/Stop, no "
-             "call ever blocks. Two NewSubscription calls in flight together are replayed deterministically "
+             "call ever blocks. The scripted source also re-organises (Disconnected events down to and below the "
+             "tip a subscriber registered at, then replacement blocks), in the replay graphs (EmitD) and in half "
+             "of the free runs. Two NewSubscription calls in flight together are replayed deterministically "
              "(Subscribe2) and occur in half of the free runs. All driver work runs in child processes; a panic "
              "in the manager's code becomes the step Crash=panic of the item in progress and is judged by Props.",
         note="Bounded: 2-3 subscribers (each subscribes once), <=3-5 bursts in the replay graph, <=3 events in the "
